@@ -3,7 +3,7 @@
     index directory; every file-system mutation is an [op], every printed line a [line]).
     [run m tree w c inv]: the command [c] (sync over roots / remove with selectors) in mode [m] on the world
     [tree] (directory tree), [w] (what a build of each repository would record) and the index [inv]. *)
-From ZV Require Import Lib.Base Model.LocalSync Proofs.LocalSync.
+From ZV Require Import Lib.Base Model.LocalSync Proofs.LocalSync Proofs.LocalSyncConv Proofs.LocalSyncMore.
 
 (** Without -f neither sync nor remove performs any file-system mutation, for every world, every index state
     (including unreadable shards) and every command: no shard removal, no build, and also no MkdirAll of the
@@ -26,6 +26,16 @@ Theorem C33_announce_faithful : forall tree w c inv,
   r_status d = r_status f.
 Proof. exact announce_faithful. Qed.
 Print Assumptions C33_announce_faithful.
+
+(** A repository the sync preview reports "Up to date" has its first shard in the index, and the forced run on
+    the same state leaves that shard alone (neither pruned nor rebuilt): the index entry read afterwards is the
+    one that was there. *)
+Theorem C33_up_to_date_untouched : forall tree w roots inv n,
+  In n (announced_up_to_date (r_out (run_sync Dry tree w roots inv))) ->
+  find_file (n, 0) inv <> None /\
+  find_file (n, 0) (apply_ops inv (r_ops (run_sync Force tree w roots inv))) = find_file (n, 0) inv.
+Proof. exact up_to_date_untouched. Qed.
+Print Assumptions C33_up_to_date_untouched.
 
 (** The preview as it was before the repair (fix 06cdaac in /repo: IndexGitRepo(DryRun) evaluated on the
     unpruned index) was NOT faithful: a repository moved from one root to another with an unchanged name is
